@@ -245,7 +245,10 @@ impl FileSystem for FakeFileSystem {
     }
 
     fn glob(&self, pattern: &str) -> Result<Vec<PathBuf>, LoadError> {
-        let pattern = glob::Pattern::new(pattern)?;
+        // Files are looked up by their canonical path, so `.` and `..` in the pattern
+        // (e.g. `include ../foo.ledger`) must be resolved the same way before matching.
+        let normalized = self.canonicalize_path(Path::new(pattern));
+        let pattern = glob::Pattern::new(normalized.to_str().unwrap_or(pattern))?;
         let mut paths: Vec<PathBuf> = self
             .0
             .keys()
